@@ -302,6 +302,39 @@ def build_catalogue():
                 return (lambda: ()), call
             op(f"default_ctor_serialise.{qual}", "dflt")(ser)
 
+    # ---- public factories that need no argument (GPSData.zero(), the make_encoding_table() helpers, ...): what they hand out belongs to
+    #      the caller, who fills it in; the next call must hand out a pristine one.  Accessors named get_* are left out: they hand out
+    #      the library's own tables by design
+    import inspect as _inspect
+    for m_ in sorted(env.import_all_okdmr(), key=lambda m_: m_.__name__):
+        if not any(x_ in m_.__name__ for x_ in (".etsi.", ".hytera.pdu", ".hytera.ipsc_elements", ".hytera.hytera_ipsc", ".motorola.", ".utils")):
+            continue
+        for cn_, cls_ in sorted(vars(m_).items()):
+            if not isinstance(cls_, type) or cls_.__module__ != m_.__name__ or issubclass(cls_, BaseException):
+                continue
+            for an_, raw_ in sorted(vars(cls_).items()):
+                if an_.startswith(("_", "get_")) or not isinstance(raw_, (staticmethod, classmethod)) or (cn_, an_) == ("GPSData", "zero"):
+                    continue
+                f_ = getattr(cls_, an_)
+                try:
+                    sig_ = _inspect.signature(f_)
+                except (TypeError, ValueError):
+                    continue
+                if any(p_.default is p_.empty and p_.kind not in (p_.VAR_POSITIONAL, p_.VAR_KEYWORD) for p_ in sig_.parameters.values()):
+                    continue
+                op(f"factory.{m_.__name__.replace('okdmr.dmrlib.', '')}.{cn_}.{an_}", "dflt", "deepwrite")(lambda f_=f_: ((lambda: ()), (lambda: f_())))
+
+    def gps_zero():
+        import datetime as _d
+        import okdmr.dmrlib.hytera.pdu.location_protocol as _lp_
+
+        def call():
+            g = _lp_.GPSData.zero()
+            g.greenwich_date = _d.date(2000, 1, 1)  # (the stamp of the day of the call is checked by its own op; a run may cross midnight)
+            return g
+        return (lambda: ()), call
+    op("factory.hytera.pdu.location_protocol.GPSData.zero", "dflt", "deepwrite")(gps_zero)
+
     # ---- Hytera --------------------------------------------------------------------------------------------------
     for i, hx in enumerate(("32420020000183040001869f04010211000300040a000064bd03", "324200000001024108050000d20400000e03",
                             "32420020000b830400066b0e0401010245b810000100040004000000fd080000fa372300c303")):
